@@ -16,6 +16,18 @@
 // X11 module-qualified names, X12 pin erasure, X13 iterator collect as a loop over Drain::next.
 use vstd::prelude::*;
 
+// X6 applied to every extracted function that takes the world (after its own rules):
+//@@default-rule X6.world s/\.try_recv\(\)/.try_recv(Tracked(w))/
+//@@default-rule X6.world s/\.receive\(\)/.receive(Tracked(w))/
+//@@default-rule X6.world s/\.send\((?!Tracked)/.send(Tracked(w), /
+//@@default-rule X6.world s/\b(ready_queue|spawn_queue|effects|events)\.is_empty\(\)/\1.is_empty(Tracked(w))/
+//@@default-rule X6.world s/\.load\((?!Tracked)/.load(Tracked(w), /
+//@@default-rule X6.world s/\.store\((?!Tracked)/.store(Tracked(w), /
+//@@default-rule X6.world s/self\.run_task\((?!Tracked)/self.run_task(Tracked(w), /
+//@@default-rule X6.world s/\.run_all\(\)/.run_all(Tracked(w))/
+//@@default-rule X6.world s/self\.(was_aborted|spawn_new_tasks|run_until_settled|is_done|process)\(\)/self.\1(Tracked(w))/
+//@@default-rule X6.world s/\.wake_join_handles\(\)/.wake_join_handles(Tracked(w))/
+
 verus! {
 
 // ================================================================== ghost world
